@@ -4,3 +4,4 @@ open Cache
 #print axioms C11_cycle_exactly
 #print axioms C11_cycles
 #print axioms C11_scan_skip_sound
+#print axioms C11_default_backend_config_unaltered
